@@ -15,6 +15,7 @@ func TestEntry(t *testing.T) {
 		c := registry[os.Getenv("VERIF_CHECK")]
 		seed, _ := strconv.ParseUint(os.Getenv("VERIF_ONE"), 10, 64)
 		tier := os.Getenv("VERIF_TIER")
+		limitMemory(c)
 		digestOne(c, seed, tier)
 		return
 	}
